@@ -163,8 +163,8 @@ theorem round_ok (cfg : Cfg) (mode : CR) (st st' : RState) (argv : List (Str × 
     (h : round cfg mode st argv = .ok st') :
     ∃ ns recs, register cfg st.ctbl (unresolved st) = .ok st'.ctbl ∧
       parseOut false false st'.ctbl argv = .ok ns ∧
-      expandAll ns (unresolved st) (st.recs, st.resolved, st.classes) =
-        .ok (recs, st'.resolved, st'.classes) ∧
+      expandAll ns (unresolved st) (st.recs, st.resolved, st.classes, st.hidden) =
+        .ok (recs, st'.resolved, st'.classes, st'.hidden) ∧
       reResolve cfg mode recs = .ok st'.recs := by
   unfold round at h
   simp only at h
@@ -179,7 +179,7 @@ theorem round_ok (cfg : Cfg) (mode : CR) (st st' : RState) (argv : List (Str × 
       · rename_i ns hp
         split at h
         · cases h
-        · rename_i recs resolved classes hex
+        · rename_i recs resolved classes hidden hex
           split at h
           · cases h
           · rename_i recs' hre
@@ -196,7 +196,7 @@ def Sel (tbl : List Act) (argv : List (Str × Str)) (d k : Str) : Prop :=
      (lastFor false tbl d argv = none ∧ a.default = some (.sc (.str k))))
 
 theorem expandOne_resolved (ns : List (Str × Val)) (r : SRec)
-    (acc acc' : List SRec × List (Str × Str) × List (Str × Str))
+    (acc acc' : List SRec × List (Str × Str) × List (Str × Str) × List (Str × Val))
     (h : expandOne ns r acc = .ok acc') :
     acc'.2.1 = acc.2.1 ∨ ∃ k, acc'.2.1 = acc.2.1 ++ [(r.dest, k)] ∧ ns.lookup r.dest = some (.sc (.str k)) := by
   unfold expandOne at h
@@ -212,7 +212,7 @@ theorem expandOne_resolved (ns : List (Str × Val)) (r : SRec)
     · cases h
 
 theorem expandAll_resolved (ns : List (Str × Val)) (rs : List SRec)
-    (acc acc' : List SRec × List (Str × Str) × List (Str × Str))
+    (acc acc' : List SRec × List (Str × Str) × List (Str × Str) × List (Str × Val))
     (h : expandAll ns rs acc = .ok acc') :
     ∀ p ∈ acc'.2.1, p ∈ acc.2.1 ∨ ns.lookup p.1 = some (.sc (.str p.2)) := by
   induction rs generalizing acc with
@@ -365,6 +365,7 @@ theorem run_exit_of_resolve (cfg : Cfg) (mode : CR) (dest : Str) (root : Cls) (a
 def HasLeaf (n : Str) (c : BConv) (d : Option Scalar) : Flds → Prop
   | .nil => False
   | .leaf n' c' d' rest => (n' = n ∧ c' = c ∧ d' = d) ∨ HasLeaf n c d rest
+  | .hidden _ _ rest => HasLeaf n c d rest
   | .sub _ _ _ rest => HasLeaf n c d rest
 
 /-- **c07_value (defaults).** The field wrappers created for a chosen entry carry, for every plain
@@ -384,6 +385,9 @@ theorem c07_value_defaults (pd : Str) (lvl : Nat) (kw : Kw) (forced : Bool) :
       exact ⟨rfl, rfl, d', Or.inl ⟨rfl, hk.1, rfl⟩, hk.2.symm⟩
     · obtain ⟨h1, h2, d0, h3, h4⟩ := c07_value_defaults pd lvl kw forced rest r hr c d hk
       exact ⟨h1, h2, d0, Or.inr h3, h4⟩
+  | .hidden n d' rest, r, hr, c, d, hk => by
+    simp only [recsOf] at hr
+    exact c07_value_defaults pd lvl kw forced rest r hr c d hk
   | .sub n d' alts rest, r, hr, c, d, hk => by
     simp only [recsOf, List.mem_cons] at hr
     rcases hr with rfl | hr
@@ -417,7 +421,7 @@ theorem accepted_converts (ab strict : Bool) (tbl : List Act) (argv : List (Str 
     carried by the field wrapper; `classes` are the entries chosen by the rounds. -/
 theorem c07_value (cfg : Cfg) (st : RState) (argv : List (Str × Str)) (res : Res)
     (h : finishParse cfg st argv = .ok res) :
-    res.classes = st.classes ∧
+    res.classes = st.classes ∧ res.hidden = st.hidden ∧
     ∀ q ∈ res.leaves, ∃ r ∈ st.recs, r.isSub = false ∧ q.1 = r.dest ∧
       ∃ a ∈ mainTable cfg st, a.dest = r.dest ∧ q.2 = actValue true (mainTable cfg st) argv a := by
   unfold finishParse at h
@@ -430,7 +434,7 @@ theorem c07_value (cfg : Cfg) (st : RState) (argv : List (Str × Str)) (res : Re
     · rename_i ns hp
       injection h with h
       subst h
-      refine ⟨rfl, ?_⟩
+      refine ⟨rfl, rfl, ?_⟩
       intro q hq
       simp only [List.mem_map, List.mem_filter] at hq
       obtain ⟨r, ⟨hr, hsub⟩, rfl⟩ := hq
@@ -594,13 +598,17 @@ theorem c07_reports_witness : ¬ ReportsStatement := by
 
 /-- **c07_reports (partial).** When the two parsers read the command line alike for a subgroup's
     destination (`SameReading`: no abbreviation of its option, no renaming after registration),
-    `namespace.subgroups` reports exactly the key the rounds selected for it. -/
+    `namespace.subgroups` reports exactly the key the rounds selected and recorded for it.  (When the
+    main parser sees no option for the destination at all, the reported key is the recorded one
+    unconditionally: the choice parser's result is already in the namespace.) -/
 theorem c07_reports_partial (cfg : Cfg) (st : RState) (argv : List (Str × Str)) (res : Res)
     (h : finishParse cfg st argv = .ok res) (tbl : List Act) (d k : Str)
+    (hres : st.resolved.lookup d = some k)
     (hsel : Sel tbl argv d k) (hsame : SameReading tbl (mainTable cfg st) argv d)
     (hopt : SameOptions tbl (mainTable cfg st) d)
     (r : SRec) (hr : r ∈ st.recs) (hsub : r.isSub = true) (hd : r.dest = d) :
     (d, Val.sc (.str k)) ∈ res.subgroups := by
+  subst hd
   unfold finishParse at h
   simp only at h
   split at h
@@ -613,43 +621,47 @@ theorem c07_reports_partial (cfg : Cfg) (st : RState) (argv : List (Str × Str))
       subst h
       simp only [List.mem_map, List.mem_filter]
       refine ⟨r, ⟨hr, hsub⟩, ?_⟩
-      obtain ⟨hns, _, _, _⟩ := parseOut_ok _ _ _ _ _ hp
-      have hmem : r.toAct cfg ∈ mainTable cfg st := List.mem_map.mpr ⟨r, hr, rfl⟩
-      have hdest : (r.toAct cfg).dest = r.dest := by
-        unfold SRec.toAct; cases r.kind <;> rfl
-      have hne : ∀ (l : List Act), r.toAct cfg ∈ l →
-          ∃ v, (l.map (fun a => (a.dest, actValue true (mainTable cfg st) argv a))).lookup r.dest = some v := by
-        intro l hl
-        induction l with
-        | nil => cases hl
-        | cons x xs ih =>
-          simp only [List.map_cons, List.lookup]
-          by_cases hx : r.dest == x.dest
-          · simp [hx]
-          · simp only [hx]
-            rcases List.mem_cons.mp hl with rfl | hl
-            · simp [hdest] at hx
-            · exact ih hl
-      obtain ⟨v, hl⟩ := hne _ hmem
-      obtain ⟨a', ha', hd', hv⟩ := lookup_map_mem _ (·.dest) (actValue true (mainTable cfg st) argv) _ _ hl
-      rw [hns, hl, hd]
-      simp only [Option.getD_some, Prod.mk.injEq, true_and]
-      rw [← hv]
-      obtain ⟨a, ha, had, hcases⟩ := hsel
-      rw [hd] at hd'
-      obtain ⟨hdef, hconv, hch⟩ := hopt a ha had a' ha' hd'
-      have hlast := lastFor_congr tbl (mainTable cfg st) d argv hsame
-      unfold actValue
-      rw [hd', ← hlast]
-      rcases hcases with ⟨hl1, hin⟩ | ⟨hl1, hdf⟩
-      · simp only [hl1, convOk, hconv, Conv.apply, BConv.apply]
-        cases hc : a'.choices with
-        | none => rfl
-        | some ch =>
-          have hin' := hin ch (by rw [hch, hc])
-          have hmem' : k ∈ ch := by simpa using hin'
-          simp [hmem']
-      · simp only [hl1, ← hdef, hdf, Option.getD_some]
+      simp only [Prod.mk.injEq, true_and]
+      cases hlt : lastFor true (mainTable cfg st) r.dest argv with
+      | none => simp only [hres]
+      | some v0 =>
+        simp only
+        obtain ⟨hns, _, _, _⟩ := parseOut_ok _ _ _ _ _ hp
+        have hmem : r.toAct cfg ∈ mainTable cfg st := List.mem_map.mpr ⟨r, hr, rfl⟩
+        have hdest : (r.toAct cfg).dest = r.dest := by
+          unfold SRec.toAct; cases r.kind <;> rfl
+        have hne : ∀ (l : List Act), r.toAct cfg ∈ l →
+            ∃ v, (l.map (fun a => (a.dest, actValue true (mainTable cfg st) argv a))).lookup r.dest = some v := by
+          intro l hl
+          induction l with
+          | nil => cases hl
+          | cons x xs ih =>
+            simp only [List.map_cons, List.lookup]
+            by_cases hx : r.dest == x.dest
+            · simp [hx]
+            · simp only [hx]
+              rcases List.mem_cons.mp hl with rfl | hl
+              · simp [hdest] at hx
+              · exact ih hl
+        obtain ⟨v, hl⟩ := hne _ hmem
+        obtain ⟨a', ha', hd', hv⟩ := lookup_map_mem _ (·.dest) (actValue true (mainTable cfg st) argv) _ _ hl
+        rw [hns, hl]
+        simp only [Option.getD_some]
+        rw [← hv]
+        obtain ⟨a, ha, had, hcases⟩ := hsel
+        obtain ⟨hdef, hconv, hch⟩ := hopt a ha had a' ha' hd'
+        have hlast := lastFor_congr tbl (mainTable cfg st) r.dest argv hsame
+        unfold actValue
+        rw [hd', ← hlast]
+        rcases hcases with ⟨hl1, hin⟩ | ⟨hl1, hdf⟩
+        · simp only [hl1, convOk, hconv, Conv.apply, BConv.apply]
+          cases hc : a'.choices with
+          | none => rfl
+          | some ch =>
+            have hin' := hin ch (by rw [hch, hc])
+            have hmem' : k ∈ ch := by simpa using hin'
+            simp [hmem']
+        · simp only [hl1, ← hdef, hdf, Option.getD_some]
 
 /-! ### 8. the crash on instance entries -/
 
@@ -693,7 +705,8 @@ def deepRoot : Cls := .mk "Root".toList
   (.sub "model".toList (some "ka".toList)
     (.cons "ka".toList .cls [] clsA (.cons "km".toList .cls [] clsM .nil)) .nil)
 def deepSt0 : RState :=
-  { recs := recsOf "config".toList 1 [] false deepRoot.fields, resolved := [], classes := [], ctbl := [] }
+  { recs := recsOf "config".toList 1 [] false deepRoot.fields, resolved := [], classes := [], hidden := [],
+    ctbl := [] }
 def deepArgv : List (Str × Str) :=
   [("--model".toList, "km".toList), ("--opt".toList, "kb".toList), ("--beta".toList, "4".toList)]
 
@@ -770,5 +783,53 @@ example : Subgroups.run cfg0 .auto "config".toList chainRoot [] =
                       ("config.lrs.lrs.lrs".toList, "K0".toList)],
           subgroups := [("config.lrs".toList, .sc (.str "ka".toList)), ("config.lrs.lrs".toList, .sc (.str "ka".toList)),
                         ("config.lrs.lrs.lrs".toList, .sc (.str "ka".toList))] } := by decide
+
+/-! ### 11. `cmd=False` attributes of the chosen entry -/
+
+/-- membership of a `cmd=False` field in a class body -/
+def HasHidden (n : Str) (d : Scalar) : Flds → Prop
+  | .nil => False
+  | .leaf _ _ _ rest => HasHidden n d rest
+  | .sub _ _ _ rest => HasHidden n d rest
+  | .hidden n' d' rest => (n' = n ∧ d' = d) ∨ HasHidden n d rest
+
+/-- **c07_value (attributes without an option).** A `cmd=False` field of a chosen entry has no option
+    and is never passed to the entry: its value is the partial keyword / the frozen instance's own
+    attribute when the entry has one, else the class default. -/
+theorem c07_value_hidden (dest : Str) (kw : Kw) :
+    (fs : Flds) → (q : Str × Val) → q ∈ hiddenOf dest kw fs →
+    ∃ n d0, HasHidden n d0 fs ∧ q.1 = dest ++ '.' :: n ∧
+      q.2 = .sc (match kw.lookup n with | some v => v | none => d0)
+  | .nil, q, hq => by simp [hiddenOf] at hq
+  | .leaf _ _ _ rest, q, hq => by
+    simp only [hiddenOf] at hq
+    obtain ⟨n, d0, h1, h2, h3⟩ := c07_value_hidden dest kw rest q hq
+    exact ⟨n, d0, h1, h2, h3⟩
+  | .sub _ _ _ rest, q, hq => by
+    simp only [hiddenOf] at hq
+    obtain ⟨n, d0, h1, h2, h3⟩ := c07_value_hidden dest kw rest q hq
+    exact ⟨n, d0, h1, h2, h3⟩
+  | .hidden n' d' rest, q, hq => by
+    simp only [hiddenOf, List.mem_cons] at hq
+    rcases hq with rfl | hq
+    · exact ⟨n', d', Or.inl ⟨rfl, rfl⟩, rfl, rfl⟩
+    · obtain ⟨n, d0, h1, h2, h3⟩ := c07_value_hidden dest kw rest q hq
+      exact ⟨n, d0, Or.inr h1, h2, h3⟩
+
+/-- `Preset(width=1, url="" cmd=False)`; entries: the frozen instances `tiny`/`large` -/
+def clsPreset : Cls := .mk "Preset".toList
+  (.leaf "width".toList .int (some (.int 1)) (.hidden "url".toList (.str []) .nil))
+def presetRoot : Cls := .mk "Root".toList
+  (.sub "preset".toList (some "tiny".toList)
+    (.cons "tiny".toList .inst [("width".toList, .int 8), ("url".toList, .str "t.pt".toList)] clsPreset
+      (.cons "large".toList .inst [("width".toList, .int 512), ("url".toList, .str "l.pt".toList)] clsPreset .nil)) .nil)
+
+/-- `--preset large --width 100`: the option overrides `width`, `url` stays the large preset's -/
+example : Subgroups.run cfg0 .auto "config".toList presetRoot
+    [("--preset".toList, "large".toList), ("--width".toList, "100".toList)] =
+    .ok { leaves := [("config.preset.width".toList, .sc (.int 100))],
+          classes := [("config.preset".toList, "Preset".toList)],
+          subgroups := [("config.preset".toList, .sc (.str "large".toList))],
+          hidden := [("config.preset.url".toList, .sc (.str "l.pt".toList))] } := by decide
 
 end SpVerif.C07
